@@ -94,7 +94,15 @@ type poolDriver interface {
 	Close()
 }
 
-func pdSubID(i int) string { return fmt.Sprintf("sub-%03d", i) }
+// Subscriber identifiers are opaque to every pool except the hash-based central
+// allocator, so they get a per-case salt: "sub-003-9f2c".
+func pdSubIDSalted(i int, salt uint64) string {
+	x := salt*0x9E3779B97F4A7C15 + uint64(i+1)*0xD1B54A32D192ED03
+	x ^= x >> 29
+	x *= 0xBF58476D1CE4E5B9
+	x ^= x >> 32
+	return fmt.Sprintf("sub-%03d-%04x", i, x&0xffff)
+}
 
 func pdSubIdx(id string) int {
 	var i int
@@ -588,12 +596,15 @@ func (f *faultyAllocStore) RemoveAllocation(ctx context.Context, poolID, sub str
 // base with defaults
 
 type pdBase struct {
+	salt    uint64
 	name    string
 	caps    pdCaps
 	units   []string
 	outside []string
 }
 
+func (b *pdBase) sid(i int) string                      { return pdSubIDSalted(i, b.salt) }
+func (b *pdBase) setSalt(x uint64)                      { b.salt = x }
 func (b *pdBase) Name() string                          { return b.name }
 func (b *pdBase) Caps() pdCaps                          { return b.caps }
 func (b *pdBase) Units() []string                       { return b.units }
@@ -636,13 +647,13 @@ func newBitmapDrv(g pdGeo) (*bitmapDrv, error) {
 }
 
 func (d *bitmapDrv) Allocate(sub int) (string, error) {
-	p, err := d.a.Allocate(pdSubID(sub))
+	p, err := d.a.Allocate(d.sid(sub))
 	if err != nil {
 		return "", err
 	}
 	return canonNet(p), nil
 }
-func (d *bitmapDrv) Release(sub int) error { return d.a.Release(pdSubID(sub)) }
+func (d *bitmapDrv) Release(sub int) error { return d.a.Release(d.sid(sub)) }
 func (d *bitmapDrv) ReleaseValue(v string) error {
 	n := parseNetStr(v)
 	if n == nil {
@@ -651,7 +662,7 @@ func (d *bitmapDrv) ReleaseValue(v string) error {
 	return d.a.ReleasePrefix(n)
 }
 func (d *bitmapDrv) Lookup(sub int) (string, bool) {
-	p := d.a.Lookup(pdSubID(sub))
+	p := d.a.Lookup(d.sid(sub))
 	return canonNet(p), p != nil
 }
 func (d *bitmapDrv) LookupValue(v string) (int, bool) {
@@ -677,14 +688,14 @@ func (d *bitmapDrv) AllocSpecific(sub int, v string) error {
 	if n == nil {
 		return errPDUnsupported
 	}
-	return d.a.AllocateSpecific(pdSubID(sub), n)
+	return d.a.AllocateSpecific(d.sid(sub), n)
 }
 func (d *bitmapDrv) SetAlloc(sub int, v string) error {
 	n := parseNetStr(v)
 	if n == nil {
 		return errPDUnsupported
 	}
-	return d.a.SetAllocation(pdSubID(sub), n)
+	return d.a.SetAllocation(d.sid(sub), n)
 }
 func (d *bitmapDrv) Stats() []pdStat {
 	a, t, u := d.a.Stats()
@@ -726,16 +737,16 @@ func newEpochDrv(g pdGeo, grace int) (*epochDrv, error) {
 }
 
 func (d *epochDrv) Allocate(sub int) (string, error) {
-	ip, err := d.e.Allocate(d.ctx, pdSubID(sub))
+	ip, err := d.e.Allocate(d.ctx, d.sid(sub))
 	if err != nil {
 		return "", err
 	}
 	return canonIP(ip), nil
 }
-func (d *epochDrv) Release(sub int) error { return d.e.Release(d.ctx, pdSubID(sub)) }
-func (d *epochDrv) Renew(sub int) error   { return d.e.Renew(d.ctx, pdSubID(sub)) }
+func (d *epochDrv) Release(sub int) error { return d.e.Release(d.ctx, d.sid(sub)) }
+func (d *epochDrv) Renew(sub int) error   { return d.e.Renew(d.ctx, d.sid(sub)) }
 func (d *epochDrv) Lookup(sub int) (string, bool) {
-	ip := d.e.Lookup(pdSubID(sub))
+	ip := d.e.Lookup(d.sid(sub))
 	return canonIP(ip), ip != nil
 }
 func (d *epochDrv) LookupValue(v string) (int, bool) {
@@ -807,15 +818,15 @@ func newPoolAllocDrv(c *sim.Ctx, g pdGeo, wrap bool) (*poolAllocDrv, error) {
 }
 
 func (d *poolAllocDrv) Allocate(sub int) (string, error) {
-	p, err := d.p.Allocate(d.ctx, pdSubID(sub), pdMAC(sub).String())
+	p, err := d.p.Allocate(d.ctx, d.sid(sub), pdMAC(sub).String())
 	if err != nil {
 		return "", err
 	}
 	return canonNet(p), nil
 }
-func (d *poolAllocDrv) Release(sub int) error { return d.p.Release(d.ctx, pdSubID(sub)) }
+func (d *poolAllocDrv) Release(sub int) error { return d.p.Release(d.ctx, d.sid(sub)) }
 func (d *poolAllocDrv) Lookup(sub int) (string, bool) {
-	p := d.p.Lookup(pdSubID(sub))
+	p := d.p.Lookup(d.sid(sub))
 	return canonNet(p), p != nil
 }
 func (d *poolAllocDrv) LookupValue(v string) (int, bool) {
@@ -891,18 +902,18 @@ func (d *localDrv) Allocate(sub int) (string, error) {
 	var p *net.IPNet
 	var err error
 	if sub%2 == 0 {
-		p, err = d.l.Allocate(d.ctx, pdSubID(sub), "p1")
+		p, err = d.l.Allocate(d.ctx, d.sid(sub), "p1")
 	} else {
-		p, err = d.l.AllocateWithMAC(d.ctx, pdSubID(sub), "p1", pdMAC(sub).String())
+		p, err = d.l.AllocateWithMAC(d.ctx, d.sid(sub), "p1", pdMAC(sub).String())
 	}
 	if err != nil {
 		return "", err
 	}
 	return canonNet(p), nil
 }
-func (d *localDrv) Release(sub int) error { return d.l.Release(d.ctx, pdSubID(sub), "p1") }
+func (d *localDrv) Release(sub int) error { return d.l.Release(d.ctx, d.sid(sub), "p1") }
 func (d *localDrv) Lookup(sub int) (string, bool) {
-	infos, err := d.l.Lookup(d.ctx, pdSubID(sub))
+	infos, err := d.l.Lookup(d.ctx, d.sid(sub))
 	if err != nil || len(infos) == 0 {
 		return "", false
 	}
@@ -988,19 +999,19 @@ func (d *distDrv) Allocate(sub int) (string, error) {
 	var p *net.IPNet
 	var err error
 	if d.useMAC && sub%2 == 1 {
-		p, err = d.da.AllocateWithMAC(d.ctx, pdSubID(sub), pdMAC(sub))
+		p, err = d.da.AllocateWithMAC(d.ctx, d.sid(sub), pdMAC(sub))
 	} else {
-		p, err = d.da.Allocate(d.ctx, pdSubID(sub))
+		p, err = d.da.Allocate(d.ctx, d.sid(sub))
 	}
 	if err != nil {
 		return "", err
 	}
 	return canonNet(p), nil
 }
-func (d *distDrv) Release(sub int) error { return d.da.Release(d.ctx, pdSubID(sub)) }
-func (d *distDrv) Renew(sub int) error   { return d.da.Renew(d.ctx, pdSubID(sub)) }
+func (d *distDrv) Release(sub int) error { return d.da.Release(d.ctx, d.sid(sub)) }
+func (d *distDrv) Renew(sub int) error   { return d.da.Renew(d.ctx, d.sid(sub)) }
 func (d *distDrv) Lookup(sub int) (string, bool) {
-	p, ok := d.da.Get(pdSubID(sub))
+	p, ok := d.da.Get(d.sid(sub))
 	if !ok {
 		return "", false
 	}
@@ -1097,13 +1108,13 @@ func newV6AddrDrv(g pdGeo) (*v6AddrDrv, error) {
 	return d, nil
 }
 func (d *v6AddrDrv) Allocate(sub int) (string, error) {
-	ip := d.p.Allocate("duid-" + pdSubID(sub))
+	ip := d.p.Allocate("duid-" + d.sid(sub))
 	if ip == nil {
 		return "", errPDExhausted
 	}
 	return canonIP(ip), nil
 }
-func (d *v6AddrDrv) Release(sub int) error { d.p.Release("duid-" + pdSubID(sub)); return nil }
+func (d *v6AddrDrv) Release(sub int) error { d.p.Release("duid-" + d.sid(sub)); return nil }
 
 type v6PDDrv struct {
 	pdBase
@@ -1123,13 +1134,13 @@ func newV6PDDrv(g pdGeo) (*v6PDDrv, error) {
 	return d, nil
 }
 func (d *v6PDDrv) Allocate(sub int) (string, error) {
-	n := d.p.Allocate("duid-" + pdSubID(sub))
+	n := d.p.Allocate("duid-" + d.sid(sub))
 	if n == nil {
 		return "", errPDExhausted
 	}
 	return canonNet(n), nil
 }
-func (d *v6PDDrv) Release(sub int) error { d.p.Release("duid-" + pdSubID(sub)); return nil }
+func (d *v6PDDrv) Release(sub int) error { d.p.Release("duid-" + d.sid(sub)); return nil }
 
 // ---------------------------------------------------------------------------
 // pppoe.IPPool
@@ -1153,13 +1164,13 @@ func newPPPoEDrv(g pdGeo, gw string) (*pppoeDrv, error) {
 	return d, nil
 }
 func (d *pppoeDrv) Allocate(sub int) (string, error) {
-	ip := d.p.Allocate(pdSubID(sub))
+	ip := d.p.Allocate(d.sid(sub))
 	if ip == nil {
 		return "", errPDExhausted
 	}
 	return canonIP(ip), nil
 }
-func (d *pppoeDrv) Release(sub int) error { d.p.Release(pdSubID(sub)); return nil }
+func (d *pppoeDrv) Release(sub int) error { d.p.Release(d.sid(sub)); return nil }
 
 // ---------------------------------------------------------------------------
 // pool.PeerPool, single node (local pool)
@@ -1183,7 +1194,7 @@ func newPeerDrv(g pdGeo, gw string) (*peerDrv, error) {
 	return d, nil
 }
 func (d *peerDrv) Allocate(sub int) (string, error) {
-	r, err := d.p.Allocate(d.ctx, pdSubID(sub), pdMAC(sub))
+	r, err := d.p.Allocate(d.ctx, d.sid(sub), pdMAC(sub))
 	if err != nil {
 		return "", err
 	}
@@ -1192,9 +1203,9 @@ func (d *peerDrv) Allocate(sub int) (string, error) {
 	}
 	return "?" + r.IP, nil
 }
-func (d *peerDrv) Release(sub int) error { return d.p.Release(d.ctx, pdSubID(sub)) }
+func (d *peerDrv) Release(sub int) error { return d.p.Release(d.ctx, d.sid(sub)) }
 func (d *peerDrv) Lookup(sub int) (string, bool) {
-	r, ok := d.p.Get(pdSubID(sub))
+	r, ok := d.p.Get(d.sid(sub))
 	if !ok {
 		return "", false
 	}
@@ -1220,8 +1231,9 @@ type nexusDrv struct {
 	nsub int
 }
 
-func newNexusDrv(c *sim.Ctx, g pdGeo, kv *memKV, nsub int) (*nexusDrv, error) {
+func newNexusDrv(c *sim.Ctx, g pdGeo, kv *memKV, nsub int, salt uint64) (*nexusDrv, error) {
 	d := &nexusDrv{c: c, kv: kv, ctx: context.Background(), nsub: nsub}
+	d.salt = salt
 	d.name = "nexus-hash"
 	d.caps = pdCaps{Lookup: true, List: true, RelBySub: true, Reload: true}
 	// documented: "Exclude network and broadcast"
@@ -1231,8 +1243,8 @@ func newNexusDrv(c *sim.Ctx, g pdGeo, kv *memKV, nsub int) (*nexusDrv, error) {
 	pb, _ := json.Marshal(nexus.IPPool{ID: "p1", CIDR: g.CIDR, Type: "residential"})
 	kv.data["/pool/p1"] = pb
 	for i := 0; i < nsub; i++ {
-		sb, _ := json.Marshal(nexus.Subscriber{ID: pdSubID(i), NTEID: fmt.Sprintf("nte-%d", i), DeviceID: "dev-1", ISPID: "isp-1", IPv4Pool: "p1", State: "active"})
-		kv.data["/subscriber/"+pdSubID(i)] = sb
+		sb, _ := json.Marshal(nexus.Subscriber{ID: d.sid(i), NTEID: fmt.Sprintf("nte-%d", i), DeviceID: "dev-1", ISPID: "isp-1", IPv4Pool: "p1", State: "active"})
+		kv.data["/subscriber/"+d.sid(i)] = sb
 	}
 	if err := d.start(); err != nil {
 		return nil, err
@@ -1252,7 +1264,7 @@ func (d *nexusDrv) start() error {
 }
 
 func (d *nexusDrv) Allocate(sub int) (string, error) {
-	s, err := d.cl.AllocateIPForSubscriber(d.ctx, pdSubID(sub))
+	s, err := d.cl.AllocateIPForSubscriber(d.ctx, d.sid(sub))
 	if err != nil {
 		return "", err
 	}
@@ -1261,9 +1273,9 @@ func (d *nexusDrv) Allocate(sub int) (string, error) {
 	}
 	return "?" + s, nil
 }
-func (d *nexusDrv) Release(sub int) error { return d.cl.ReleaseSubscriberIP(d.ctx, pdSubID(sub)) }
+func (d *nexusDrv) Release(sub int) error { return d.cl.ReleaseSubscriberIP(d.ctx, d.sid(sub)) }
 func (d *nexusDrv) Lookup(sub int) (string, bool) {
-	s, ok := d.cl.LookupSubscriberIP(pdSubID(sub))
+	s, ok := d.cl.LookupSubscriberIP(d.sid(sub))
 	if !ok {
 		return "", false
 	}
@@ -1330,6 +1342,17 @@ const pdEpochPeriod = time.Hour
 
 // newPoolDriver builds the variant named by the case from its knobs.
 func newPoolDriver(c *sim.Ctx) (poolDriver, error) {
+	d, err := buildPoolDriver(c)
+	if err != nil {
+		return nil, err
+	}
+	if s, ok := d.(interface{ setSalt(uint64) }); ok {
+		s.setSalt(uint64(c.Case.Knob("idsalt", 0)))
+	}
+	return d, nil
+}
+
+func buildPoolDriver(c *sim.Ctx) (poolDriver, error) {
 	cs := c.Case
 	geo := cs.Knob("geo", 0)
 	grace := int(cs.Knob("grace", 1))
@@ -1383,23 +1406,25 @@ func newPoolDriver(c *sim.Ctx) (poolDriver, error) {
 		g := pickGeo(pdGeoV4Host, geo)
 		return newPeerDrv(g, gatewayFor(g, gwk))
 	case "nexus-hash":
-		return newNexusDrv(c, pickGeo(pdGeoV4Host[1:], geo), newKV(), int(cs.Knob("nsub", 3)))
+		return newNexusDrv(c, pickGeo(pdGeoV4Host[1:], geo), newKV(), int(cs.Knob("nsub", 3)), uint64(cs.Knob("idsalt", 0)))
 	}
 	return nil, fmt.Errorf("unknown pool variant %q", cs.Variant)
 }
 
 // pdVariantLabel is the variant part of a fingerprint (no geometry, no ids).
-func pdVariantLabel(c *sim.Ctx, d poolDriver) string {
+// withGrace keeps the "-gN" suffix of the lease variants (C05: the grace decides
+// which generation arithmetic is exercised); withEcho appends "+echo" to the
+// store-backed variants when the store notifies the pool's own watch callback
+// of local writes (C01: the callback is one more concurrent caller).
+func pdVariantLabel(c *sim.Ctx, d poolDriver, withGrace, withEcho bool) string {
 	l := d.Name()
-	switch c.Case.Knob("echo", 0) {
-	case 1:
-		if strings.HasPrefix(l, "dist-") || l == "nexus-hash" {
-			l += "+echo"
+	if !withGrace {
+		if i := strings.LastIndex(l, "-g"); i > 0 && i == len(l)-3 {
+			l = l[:i]
 		}
-	case 2:
-		if strings.HasPrefix(l, "dist-") || l == "nexus-hash" {
-			l += "+echo-unordered"
-		}
+	}
+	if withEcho && strings.HasPrefix(l, "dist-") && c.Case.Knob("echo", 0) != 0 {
+		l += "+echo"
 	}
 	return l
 }
